@@ -33,7 +33,7 @@ CLAIMS = {
         "the working tree (without the verification cfg) is run on generated tree files for stats, matrix (both layouts), distance, compare, collapse (-e), rescale, remove (random tips and "
         "whole sibling groups) and resolve: report outputs are compared with the library in-process, with independent computations (path walks, brute-force splits) and with the arena / "
         "split / matrix models; transform outputs are parsed back and compared with the CLI model's arena and with the contract; -o for every subcommand into a PRE-EXISTING longer file must leave exactly the plain run's output.",
-   note=NOTE + ARQ + "Modelled, not verified: clap argument parsing, the file system, process exit codes (a panic exit is an error exit); not covered: generate, draw, deduplicate, completion (not in the property).",
+   note=NOTE + ARQ + "Modelled, not verified: clap argument parsing, the file system, process exit codes (a panic exit is an error exit); generate is run and judged by C17's oracles; not covered: draw, deduplicate, completion (not in the property).",
    technique="Lean 4 proofs on the CLI-logic model (collapse and remove contracts over the whole loops) + runs of the real binary compared with library, independent computations and models", ref="5 C18"),
  "C20": dict(
    text="Kernel-checked totality theorems per function family of the model, where every partial Rust operation is an explicit panic outcome and unbounded recursion is running out of fuel: "
@@ -247,6 +247,24 @@ TIE_ADDENDA = {
  "C20": " Every mutating matrix call, accepted or refused, is followed by a battery of every reader and writer on the object it leaves behind; Display / Debug of every node on labels mixing 1- to 4-byte characters; add_child / add with a copy of a node of the tree. The outcome class (Ok / Err) of every two-tree comparison on every subject x partner pair with exactly one live root each is compared with the split model: an Ok where the model refuses the pair (or the reverse) is reported.",
 }
 for _p, _t in TIE_ADDENDA.items():
+    CLAIMS[_p]["text"] = CLAIMS[_p]["text"].rstrip() + _t
+
+# streams and theorems added in the fourth session (round 6 of seeded changes, coverage measurement)
+SESSION4 = {
+ "C01": " Comment texts include strings that are annotations with a meaning elsewhere (&R, &U, NHX, BEAST attributes, support values): a comment is opaque data.",
+ "C03": " Histories also START from trees built by the random generators (with lengths), by UPGMA (integer, decimal and tied matrices) and from copies of the object; shapes include polytomies of 33-96 children.",
+ "C04": " Removed ids and ids never handed out are put to EVERY query that takes a node id (traversals, listings, root path, common ancestor, distance — alone, twice, and paired with a live node in either position): all must refuse. The public entry points of the ancestor / distance queries are model definitions of their own (commonAncestorPub / distancePub, Props/C09Pub).",
+ "C09": " Props/C09Pub: the public entry points refuse an id that is not a node of the tree in either position and coincide with the functions of the main theorems on nodes of the tree.",
+ "C11": " rescale is also judged on copies in which a few branches carry the largest finite, infinite and subnormal lengths (the IEEE product, bit for bit); larger random trees (incl. wide polytomies) get prunes and regroupings at random places.",
+ "C13": " Matrices of 4600-6500 taxa (thorough: up to 9000) in BOTH element types are read through indexed_iter / min / max / get against the integer inverse index.",
+ "C14": " Labels that read as numbers (101, 7, 1e3, inf); every fifth random matrix also travels through to_file / from_file (fresh path or existing longer file, file content = to_phylip); square texts with ONE diagonal entry replaced (other spellings of zero accepted, negative / tiny / infinite / NaN rejected).",
+ "C15": " Non-negativity is judged WITHOUT tolerance; decimal matrices with many ties (tenths, correctly rounded) are judged by the oracles on the real result (this found the negative-branch defect repaired by the clamp); the clamp is part of the executable model (UPG.upgmaC, Props/C15Clamp: equal to the unclamped transcription on the property's domain, non-negative lengths for EVERY input) and matrices with negative entries are compared with it.",
+ "C17": " A volume stream of 160 000 (thorough: 1.28 million) Yule / ETE3 requests of 48-80 tips with structural oracles only (an event of one step in a million shows).",
+ "C18": " Also: taxa whose names concatenate ambiguously (a+bc = ab+c; the unary family x, xx, xxx), markup-like labels, collapse -v (same tree on stdout, count on stderr), and the generate subcommand of the unguarded binary (every shape, distribution, -b, -n/-o) judged by C17's oracles.",
+ "C19": " Labels with markup / format-string / shell metacharacters; drawings of 1000-2600 leaves (wedges stay proportional however thin).",
+ "C20": " Node equality over every pair of live nodes and Node::remove_child on non-children are part of the cross product.",
+}
+for _p, _t in SESSION4.items():
     CLAIMS[_p]["text"] = CLAIMS[_p]["text"].rstrip() + _t
 
 checks = []
